@@ -377,4 +377,241 @@ theorem rescale_stats (s : Summary) (f : F64) :
   ⟨rescale_count s f, (rescale_sum s f).1, (rescale_sum s f).2.1, (rescale_sum s f).2.2,
     rescale_pos s f, rescale_neg s f⟩
 
+/-! ## counterexamples to the uncorrected statements (closed computations on the exact model) -/
+
+/-- oracle with `lowerBound j = 2^j` (exactly), `index` constant -/
+def envPow2 (idx : Int) : MapEnv :=
+  { id := default, minIndexable := .fin 0, maxIndexable := .pinf, relAcc := .fin 0,
+    value := fun j => .fin (pow2 j), lowerBound := fun j => .fin (pow2 j), index := fun _ => idx }
+
+def envNaN : MapEnv :=
+  { id := default, minIndexable := .fin 0, maxIndexable := .pinf, relAcc := .fin 0,
+    value := fun j => .fin (pow2 j),
+    lowerBound := fun j => if j = 1 then .nan else .fin (pow2 j), index := fun _ => 0 }
+
+/-- finite positive bounds `2^-1074 < 2^1000`, finite non-NaN oracle, count `1 > 0`: the only
+    visited bin gets the weight `fl(fl(2^-1074 / 2^1000) · 1) = 0`, which is not `> 0` -/
+theorem underflow_gives_zero_weight :
+    spreadBin (envPow2 0) (.fin (pow2 (-1074))) (.fin (pow2 1000)) (.fin 1) 1 (-1074)
+      = [(-1074, .fin 0)] ∧ F64.lt (.fin 0) (.fin 0) = false := by decide +kernel
+
+/-- a NaN bound of the target bin: the intersection is NaN, hence not `≤ 0`, and the bin receives a
+    NaN weight (which is neither `> 0` nor `< 0`) -/
+theorem nan_bound_gives_nan_weight :
+    spreadBin envNaN (.fin 1) (.fin 5) (.fin 8) 1 0 = [(0, .nan)] := by decide +kernel
+
+/-- … and `inLow < lowerBound (j+1)` fails for that produced index -/
+theorem nan_bound_breaks_overlap :
+    (0, F64.nan) ∈ spreadBin envNaN (.fin 1) (.fin 5) (.fin 8) 1 0 ∧
+      F64.lt (.fin 1) (envNaN.lowerBound (0 + 1)) = false := by decide +kernel
+
+/-- and a run where everything is exact: `[1,5)` of weight `8` over the bins of `2^j` -/
+example : spreadBin (envPow2 0) (.fin 1) (.fin 5) (.fin 8) 3 0
+    = [(0, .fin 2), (1, .fin 4), (2, .fin 2)] := by decide +kernel
+
+
+/-! ## the hypotheses are satisfiable — Part 1
+
+source grid `3^i`, target grid `2^j` over `ℚ`, scale `1`, source histogram `[1,3) ↦ 6`, `[3,9) ↦ 12`;
+rank `r = 7` is answered by source bin `1 = [3,9)` and by target bin `1 = [2,4)` (cumulated target
+weights `3, 8, …`) -/
+
+def G2 : Grid ℚ := natGrid 2 (by norm_num)
+def G3 : Grid ℚ := natGrid 3 (by norm_num)
+def src0 : List (ℤ × ℚ) := [(0, 6), (1, 12)]
+
+theorem G2_b (j : ℤ) : G2.b j = (2:ℚ) ^ j := by simp [G2, natGrid]
+theorem G3_b (j : ℤ) : G3.b j = (3:ℚ) ^ j := by simp [G3, natGrid]
+theorem src0_sorted : src0.Pairwise (fun u v => u.1 < v.1) := by simp [src0]
+theorem src0_nonneg : ∀ q ∈ src0, 0 ≤ q.2 := by
+  intro q hq; simp [src0] at hq; rcases hq with rfl | rfl <;> norm_num
+theorem src0_low : ∀ p ∈ src0, G2.b 0 ≤ sLo G3.b 1 p.1 := by
+  intro q hq; simp [src0] at hq; rcases hq with rfl | rfl <;> norm_num [sLo, G2_b, G3_b]
+theorem src0_high : ∀ p ∈ src0, sHi G3.b 1 p.1 ≤ G2.b (3 + 1) := by
+  intro q hq; simp [src0] at hq; rcases hq with rfl | rfl <;> norm_num [sHi, G2_b, G3_b]
+theorem rebin0 : rebin G3.b G2.b 1 src0 0 = 3 := by
+  norm_num [rebin, src0, prop, sLo, sHi, G2_b, G3_b]
+theorem rebin1 : rebin G3.b G2.b 1 src0 1 = 5 := by
+  norm_num [rebin, src0, prop, sLo, sHi, G2_b, G3_b]
+theorem below0 : ∑ k ∈ Finset.Ico (0:ℤ) 1, rebin G3.b G2.b 1 src0 k ≤ 7 := by
+  rw [show Finset.Ico (0:ℤ) 1 = {0} by decide, Finset.sum_singleton, rebin0]; norm_num
+theorem above0 : (7:ℚ) < ∑ k ∈ Finset.Icc (0:ℤ) 1, rebin G3.b G2.b 1 src0 k := by
+  rw [show Finset.Icc (0:ℤ) 1 = {0, 1} by decide, Finset.sum_pair (by norm_num), rebin0, rebin1]
+  norm_num
+
+example (j : ℤ) : 0 ≤ prop G2.b 1 3 j ∧ prop G2.b 1 3 j ≤ 1 :=
+  ⟨prop_nonneg _ (by norm_num) j, prop_le_one _ (by norm_num) j⟩
+
+example : 0 < prop G2.b 1 3 1 :=
+  (prop_pos_iff_lt G2.b (by norm_num) 1 (G2.strictMono (by norm_num))).mpr
+    (by norm_num [G2_b])
+
+example : ∃ x : ℚ, (G2.b 1 < x ∧ x < G2.b (1 + 1)) ∧ (1 < x ∧ x < 3) :=
+  (prop_pos_iff_overlap G2.b (by norm_num) 1).mp
+    ((prop_pos_iff_lt G2.b (by norm_num) 1 (G2.strictMono (by norm_num))).mpr (by norm_num [G2_b]))
+
+example : ∃ J, (0:ℤ) ≤ J ∧ G2.b J < 3 ∧ 3 ≤ G2.b (J + 1) ∧
+    ∀ j, (0 ≤ j ∧ G2.b j < 3) ↔ j ∈ Finset.Icc 0 J :=
+  visited_range G2.strictMono (by norm_num [G2_b]) (natGrid_unbounded 2 (by norm_num) 3)
+
+example : ∑ j ∈ Finset.Icc (G2.idx 1) 1, prop G2.b 1 3 j = 1 :=
+  prop_sum_eq_one_grid G2 (by norm_num) (by norm_num) (by norm_num [G2_b])
+
+example : rebin G3.b G2.b 1 src0 7 = 0 :=
+  rebin_eq_zero_outside G3.strictMono G2.strictMono.monotone one_pos src0_low src0_high (by decide)
+
+example : ∃ m J : ℤ, m ≤ J + 1 ∧ (∀ p ∈ src0, G2.b m ≤ sLo G3.b 1 p.1) ∧
+    (∀ p ∈ src0, sHi G3.b 1 p.1 ≤ G2.b (J + 1)) :=
+  cover_exists G3.b G3.pos G2 (natGrid_unbounded 2 (by norm_num)) one_pos src0
+
+example (j : ℤ) : 0 ≤ rebin G3.b G2.b 1 src0 j :=
+  rebin_nonneg G3.strictMono one_pos src0_nonneg j
+
+example : ∑ k ∈ Finset.Ico 0 2, rebin G3.b G2.b 1 src0 k = srcCdf G3.b 1 src0 (G2.b 2) :=
+  rebin_cdf G3.strictMono G2.strictMono.monotone one_pos src0 src0_low (by norm_num)
+
+theorem G3_ratio : ∀ i, G3.b (i + 1) ≤ 3 * G3.b i := by
+  intro i; rw [G3_b, G3_b, zpow_add_one₀ (by norm_num)]; linarith
+theorem G2_ratio : ∀ i, G2.b (i + 1) ≤ 2 * G2.b i := by
+  intro i; rw [G2_b, G2_b, zpow_add_one₀ (by norm_num)]; linarith
+
+example : ∃ pre p post, src0 = pre ++ p :: post ∧ total pre ≤ 7 ∧ 7 < total pre + p.2 ∧
+    1 / (3 * 2) < G2.b 1 / (1 * G3.b p.1) ∧ G2.b 1 / (1 * G3.b p.1) < 3 * 2 :=
+  rebin_quantile_accuracy G3.strictMono G2.strictMono.monotone G3.pos G2.pos one_pos
+    G3_ratio G2_ratio
+    (fun i => ⟨le_rfl, G3.strictMono.monotone (by omega)⟩)
+    (fun i => ⟨le_rfl, G2.strictMono.monotone (by omega)⟩)
+    src0_sorted src0_nonneg src0_low (by norm_num) (by norm_num) below0 above0
+
+theorem G3_acc : ∀ i v, G3.b i < v → v < G3.b (i + 1) → |G3.b i - v| ≤ 2 / 3 * v := by
+  intro i v h1 h2
+  have := G3_ratio i
+  rw [abs_le]; constructor <;> linarith [G3.pos i]
+theorem G2_acc : ∀ i v, G2.b i < v → v < G2.b (i + 1) → |G2.b i - v| ≤ 1 / 2 * v := by
+  intro i v h1 h2
+  have := G2_ratio i
+  rw [abs_le]; constructor <;> linarith [G2.pos i]
+
+example : ∃ pre p post, src0 = pre ++ p :: post ∧ total pre ≤ 7 ∧ 7 < total pre + p.2 ∧
+    (1 - 1 / 2) * (1 * G3.b p.1) ≤ (1 + 2 / 3) * G2.b 1 ∧
+    (1 - 2 / 3) * G2.b 1 ≤ (1 + 1 / 2) * (1 * G3.b p.1) :=
+  rebin_quantile_accuracy_alpha G3.strictMono G2.strictMono one_pos
+    (by norm_num) (by norm_num) (by norm_num) (by norm_num) G3_acc G2_acc
+    src0_sorted src0_nonneg src0_low (by norm_num) (by norm_num) below0 above0
+
+example (j : ℤ) : rebin G2.b G2.b 1 src0 j = weightAt src0 j := identity_rebin G2.strictMono src0 j
+
+/-- all three kinds, `gamma = 2`: the hypotheses of `mapping_quantile_accuracy` are satisfiable
+    (identity conversion of a one-bin histogram, rank `0`) -/
+example (k : MKind) (off : ℝ) :
+    ∃ pre q post, [((0:ℤ), (1:ℝ))] = pre ++ q :: post ∧ total pre ≤ 0 ∧ 0 < total pre + q.2 ∧
+      (1 - Mapping.relativeAccuracy ⟨k, 2, off⟩) * (1 * Mapping.value ⟨k, 2, off⟩ q.1)
+        ≤ (1 + Mapping.relativeAccuracy ⟨k, 2, off⟩) * Mapping.value ⟨k, 2, off⟩ 0 ∧
+      (1 - Mapping.relativeAccuracy ⟨k, 2, off⟩) * Mapping.value ⟨k, 2, off⟩ 0
+        ≤ (1 + Mapping.relativeAccuracy ⟨k, 2, off⟩) * (1 * Mapping.value ⟨k, 2, off⟩ q.1) := by
+  have hγ : 1 < (⟨k, 2, off⟩ : Mapping.Params ℝ).gamma := by norm_num
+  have hsm := mapping_lowerBound_strictMono _ hγ
+  refine mapping_quantile_accuracy ⟨k, 2, off⟩ ⟨k, 2, off⟩ hγ hγ one_pos (by simp) (by simp)
+    (m := 0) (j := 0) ?_ le_rfl le_rfl ?_ ?_
+  · intro q hq; simp only [List.mem_singleton] at hq; subst hq; simp [sLo]
+  · simp
+  · rw [show Finset.Icc (0:ℤ) 0 = {0} by decide, Finset.sum_singleton, Rebin.identity_rebin hsm]
+    simp [weightAt]
+
+
+/-! ## the hypotheses are satisfiable — Part 2
+
+target oracle `lowerBound j = 2^j`, one source bin `[1, 5)` of weight `8`: the loop visits the bins
+`0, 1, 2` and every operation is exact (`1/4, 1/2, 1/4` of the weight) -/
+
+
+def envOf (lb : Int → Rat) (idx : Int) : MapEnv :=
+  { id := default, minIndexable := .fin 0, maxIndexable := .pinf, relAcc := .fin 0,
+    value := fun j => .fin (lb j), lowerBound := fun j => .fin (lb j), index := fun _ => idx }
+
+theorem pow2_sm : StrictMono pow2 := fun _ _ h => pow2_strictMono h
+
+theorem ex_hJ1 : ∀ j : ℤ, j ≤ 2 → pow2 j < 5 := fun j hj =>
+  lt_of_le_of_lt (pow2_mono hj) (by decide +kernel)
+theorem ex_hJ2 : (5:ℚ) ≤ pow2 (2 + 1) := by decide +kernel
+theorem ex_hsize : Exact (5 - 1) := by unfold Exact; decide +kernel
+theorem ex_hinter : ∀ j : ℤ, 0 ≤ j → j ≤ 2 → Exact (min (pow2 (j + 1)) 5 - max (pow2 j) 1) := by
+  intro j h1 h2
+  unfold Exact
+  interval_cases j <;> decide +kernel
+theorem ex_hdiv : ∀ j : ℤ, 0 ≤ j → j ≤ 2 → 0 < prop pow2 1 5 j → Exact (prop pow2 1 5 j) := by
+  intro j h1 h2 _
+  unfold Exact prop
+  interval_cases j <;> decide +kernel
+theorem ex_hmul : ∀ j : ℤ, 0 ≤ j → j ≤ 2 → 0 < prop pow2 1 5 j → Exact (prop pow2 1 5 j * 8) := by
+  intro j h1 h2 _
+  unfold Exact prop
+  interval_cases j <;> decide +kernel
+
+example : spreadBin (envPow2 0) (.fin 1) (.fin 5) (.fin 8) 3 0 =
+    (visited 0 2).filterMap fun j =>
+      if 0 < prop pow2 1 5 j then some (j, F64.fin (prop pow2 1 5 j * 8)) else none :=
+  spreadBin_spec (envPow2 0) pow2 (fun _ => rfl) pow2_sm (by norm_num) ex_hJ1 ex_hJ2 ex_hsize
+    ex_hinter ex_hdiv ex_hmul 3 0 le_rfl (by norm_num) (by norm_num)
+
+example : ((spreadBin (envPow2 0) (.fin 1) (.fin 5) (.fin 8) 3 ((envPow2 0).index (.fin 1))).map
+    fun p => ratOfF p.2).sum = 8 :=
+  spreadBin_spec_total (envPow2 0) pow2 (fun _ => rfl) pow2_sm (by norm_num) ex_hJ1 ex_hJ2 ex_hsize
+    ex_hinter ex_hdiv ex_hmul (by decide +kernel) 3 (by decide)
+
+theorem ex_hs : F64.sub (.fin 5) (.fin 1) = .fin 4 := by decide +kernel
+theorem ex_mem : (1, F64.fin 4) ∈ spreadBin (envPow2 0) (.fin 1) (.fin 5) (.fin 8) 3 0 := by
+  decide +kernel
+
+example : F64.lt (.fin 4) (.fin 0) = false :=
+  spreadBin_weights_not_neg (envPow2 0) (.fin 1) (.fin 5) (.fin 8) (by decide +kernel) 3 0 1 _ ex_mem
+
+example : F64.le (.fin 0) (.fin 4) = true :=
+  spreadBin_weights_nonneg (envPow2 0) 1 5 4 8 (fun _ => rfl) ex_hs (by norm_num) 3 0 1 _ ex_mem
+
+theorem ex_nounderflow : ∀ (j : ℤ) (x : ℚ), 0 ≤ j → j < 0 + (3 : ℕ) →
+    fInter (envPow2 0) (.fin 1) (.fin 5) j = .fin x → 0 < x →
+      pow2 (-1075) < F64.rv (x / 4) * 8 := by
+  intro j x h1 h2 hx _
+  have h3 : j < 3 := by simpa using h2
+  interval_cases j
+  · have : fInter (envPow2 0) (.fin 1) (.fin 5) 0 = .fin 1 := by decide +kernel
+    rw [this] at hx; cases hx; decide +kernel
+  · have : fInter (envPow2 0) (.fin 1) (.fin 5) 1 = .fin 2 := by decide +kernel
+    rw [this] at hx; cases hx; decide +kernel
+  · have : fInter (envPow2 0) (.fin 1) (.fin 5) 2 = .fin 1 := by decide +kernel
+    rw [this] at hx; cases hx; decide +kernel
+
+example : F64.lt (.fin 0) (.fin 4) = true :=
+  spreadBin_weights_pos (envPow2 0) 1 5 4 8 (fun _ => rfl) ex_hs 3 0 ex_nounderflow 1 _ ex_mem
+
+example : F64.lt ((envPow2 0).lowerBound 1) (.fin 5) = true ∧
+    (F64.fin 4 = .nan ∨ F64.lt (.fin 1) ((envPow2 0).lowerBound (1 + 1)) = true) :=
+  spreadBin_indexes_overlap (envPow2 0) (.fin 1) (.fin 5) (.fin 8) 3 0 1 _ ex_mem
+
+example : F64.lt ((envPow2 0).lowerBound 1) (.fin 5) = true ∧
+    F64.lt (.fin 1) ((envPow2 0).lowerBound (1 + 1)) = true :=
+  spreadBin_indexes_overlap_fin (envPow2 0) 1 5 4 8 (fun _ => rfl) ex_hs 3 0 1 _ ex_mem
+
+/-- source grid `5^i`, target grid `2^j`, scale `1`, one bin `[1, 5)` of weight `8` -/
+example : ((spreadStore (envOf (fun i => if i = 0 then 1 else 5) 0) (envPow2 0) (.fin 1) [(0, 8)] 3).map
+    fun q => ratOfF q.2).sum = ([((0:Int), (8:Rat))].map Prod.snd).sum :=
+  spreadStore_total _ _ _ _ _ (by
+    intro p hp
+    simp only [List.mem_singleton] at hp
+    subst hp
+    decide +kernel)
+
+/-- `rescale_stats`: both sign hypotheses are satisfiable (`f = 2`, `f = -2`) -/
+example (s : Summary) :
+    (s.rescale (.fin 2)).min = F64.mul s.min (.fin 2) ∧
+      (s.rescale (.fin 2)).max = F64.mul s.max (.fin 2) :=
+  (rescale_stats s (.fin 2)).2.2.2.2.1 (by decide +kernel)
+
+example (s : Summary) :
+    (s.rescale (.fin (-2))).min = F64.mul s.max (.fin (-2)) ∧
+      (s.rescale (.fin (-2))).max = F64.mul s.min (.fin (-2)) :=
+  (rescale_stats s (.fin (-2))).2.2.2.2.2 (by decide +kernel)
+
+
 end DDS.Props.C17
